@@ -6,10 +6,23 @@ import docgen as D
 
 MODEL_TARGETS = ["model/Parse.vo", "model/CanonicalForm.vo", "spec/PcfSpec.vo"]
 COQ_TARGETS = ["props/C07.vo"]
-THEOREMS = [("C07", [])]
-PROOF_FILES = ["props/C07.v"]
-TRUSTED_BASE = []
-ASSUMPTIONS = []
+THEOREMS = [("C07", ["C07_ns_edge_def", "C07_ns_edge_ref", "C07_resolve", "C07_resolve_iff", "C07_reject_unknown_reference",
+                     "C07_reject_duplicate_definition", "C07_reject_missing_attribute", "C07_no_unconditional_cycle",
+                     "C07_cycle_check_exact", "C07_forward_resolution"])]
+PROOF_FILES = ["proofs/SchemaTextProofs.v", "proofs/ParseResolveDefs.v", "proofs/ParseBridge.v", "proofs/ParseLayout.v", "proofs/ParseCf.v",
+               "proofs/ParseRejectProofs.v", "proofs/ParseResolveProofs.v", "props/C07.v"]
+TRUSTED_BASE = [
+    "Coq 8.16.1 kernel; no axioms (Print Assumptions: closed)",
+    "spec/PcfSpec.v: the Parsing Canonical Form and the fullname rules written from the Avro specification on the JSON AST (no graph); extracted as the oracle for the crate's canonical form text (hook H1)",
+    "hand-written models Parse.v (raw.rs, parsing/mod.rs, check_for_cycles.rs) and CanonicalForm.v tied by the correspondence run: node vector, canonical form text and fingerprint, model vs crate, on generated documents in every namespace spelling",
+    "serde_json (text -> AST) is outside the model; Python's json module (order / duplicates / number tokens preserved) provides the AST for the model side",
+]
+ASSUMPTIONS = [
+    "proved: for every document valid per the specification (definition before use) parsing succeeds and canonical_form(parse j) = PcfSpec.pcf j, i.e. every reference resolves to the type the specification designates, field order / symbols / sizes preserved (C07_resolve); unknown reference, duplicate fullname, missing attribute, unconditional record cycle are errors; the cycle check is exact",
+    "use before definition (accepted by the crate, not by the specification): the late-resolution lemma is proved; the full statement against the hoisted document is decided by the correspondence run (documents with forward references, H1 text vs extracted pcf of the hoisted document)",
+    "three spec-allowed spellings the crate rejects are documented and excluded (type given as a nested object; a name attribute on an unnamed type takes part in the duplicate check; non-canonical size tokens like 04): C07_*_refuted",
+    "logical types and their parameters are compared node by node between model and crate in the correspondence run (the canonical form drops them)",
+]
 
 def objs(j, path=()):
     """all object nodes of a document with their paths"""
